@@ -27,6 +27,7 @@ import (
 	"log"
 	"net"
 	"os"
+	"sort"
 	"strings"
 	"sync"
 	"testing"
@@ -73,6 +74,11 @@ type vWLine struct {
 	Mutated    bool   `json:"mutated"` // the attack changed at least one byte
 	Note       string `json:"note"`
 	Panic      string `json:"panic"`
+	// byte campaign (attack "campaign"): every truncation and byte mutations of the genuine frame
+	Injected     int `json:"injected"`
+	ActedMut     int `json:"actedMut"`     // mutated / truncated inputs on which the receiver acted (version byte excluded)
+	ActedVersion int `json:"actedVersion"` // ... of those that only changed the encryption version byte
+	ChangedMut   int `json:"changedMut"`   // mutated inputs after which the receiver's membership differed
 }
 
 var vWKeys = map[string][]byte{
@@ -546,6 +552,11 @@ func vWRun(t *testing.T, s *vSink, id int, c vWCase) (l vWLine) {
 		}
 	}
 
+	if c.Attack == "campaign" {
+		vWCampaign(t, s, &l, c, nw, B, ipA, sent[0], os.Getenv("VERIF_TIER") == "thorough")
+		return l
+	}
+
 	// the attacker of the model
 	var wire []byte
 	var why string
@@ -656,6 +667,95 @@ func vWRun(t *testing.T, s *vSink, id int, c vWCase) (l vWLine) {
 		l.Acted = true
 	}
 	return l
+}
+
+// vWCampaign fires every truncation and single-byte mutations of a genuine frame at the receiver
+func vWCampaign(t *testing.T, s *vSink, l *vWLine, c vWCase, nw *vNet, B *vWNode, ipA net.IP, frame []byte, all bool) {
+	nw.partition(map[string]int{})
+	_, body, _ := vSplitLabel(frame)
+	hdr := len(frame) - len(body)
+	vsnPos := -1
+	if c.senderKey() != nil {
+		vsnPos = hdr
+		if c.Path == "stream" {
+			vsnPos = hdr + 5
+		}
+	}
+	digest := func() string {
+		B.m.nodeLock.RLock()
+		defer B.m.nodeLock.RUnlock()
+		var parts []string
+		for name, st := range B.m.nodeMap {
+			parts = append(parts, fmt.Sprintf("%s:%d:%d:%x", name, st.State, st.Incarnation, st.Meta))
+		}
+		sort.Strings(parts)
+		return strings.Join(parts, ",")
+	}
+	effects := func() int {
+		B.d.mu.Lock()
+		defer B.d.mu.Unlock()
+		return len(B.d.msgs) + len(B.d.states)
+	}
+	fire := func(wire []byte, isVersion bool) {
+		d0, e0 := digest(), effects()
+		s.mu.Lock()
+		ops0 := s.lines
+		s.mu.Unlock()
+		if c.Path == "packet" {
+			B.tr.packetCh <- &Packet{Buf: wire, From: &net.UDPAddr{IP: ipA, Port: 7946}, Timestamp: time.Now()}
+			time.Sleep(5 * time.Millisecond)
+		} else {
+			c1, c2 := net.Pipe()
+			B.tr.streamCh <- c1
+			go func() { _, _ = c2.Write(wire); time.Sleep(50 * time.Millisecond); _ = c2.Close() }()
+			buf := make([]byte, 4096)
+			for {
+				_ = c2.SetReadDeadline(time.Now().Add(2500 * time.Millisecond))
+				if _, err := c2.Read(buf); err != nil {
+					break
+				}
+			}
+			_ = c2.Close()
+			time.Sleep(2100 * time.Millisecond) // the handler's own deadline
+		}
+		synctest.Wait()
+		l.Injected++
+		s.mu.Lock()
+		acted := s.lines != ops0
+		s.mu.Unlock()
+		if effects() != e0 {
+			acted = true
+		}
+		if acted {
+			if isVersion {
+				l.ActedVersion++
+			} else {
+				l.ActedMut++
+			}
+		}
+		if digest() != d0 && !isVersion {
+			l.ChangedMut++
+		}
+	}
+	for k := 0; k < len(frame); k++ { // every truncation
+		fire(append([]byte(nil), frame[:k]...), false)
+	}
+	pats := []byte{0x01, 0x80, 0xff, 0x41, 0x10, 0x7f, 0x02, 0xaa}
+	for pos := 0; pos < len(frame); pos++ {
+		var xs []byte
+		if all || pos < hdr+8 {
+			for x := 1; x < 256; x++ {
+				xs = append(xs, byte(x))
+			}
+		} else {
+			xs = pats
+		}
+		for _, x := range xs {
+			w := append([]byte(nil), frame...)
+			w[pos] ^= x
+			fire(w, pos == vsnPos)
+		}
+	}
 }
 
 func firstOr(s []string, d string) string {
